@@ -11,11 +11,14 @@ def codes(s):
 
 class C13(Prop):
     pid = "C13"
-    lean_targets = ["M17.Props.C13"]
-    theorems = ["M17.C13.inv_step", "M17.C13.plan_numbering", "M17.C13.eos_bit", "M17.C13.baseband_is_one_continuous_run"]
+    lean_targets = ["M17.Props.C13", "M17.Props.C13A"]
+    theorems = ["M17.C13.inv_step", "M17.C13.plan_numbering", "M17.C13.eos_bit", "M17.C13.baseband_is_one_continuous_run",
+                "M17.C13A.ainv_step", "M17.C13A.plan_audio", "M17.C13A.plan_eq_specPlan"]
     level_text = ("Lean 4 theorems: for EVERY audio length the modelled transmit() loop sends ceil(len/320)+1 stream frames numbered k mod 0x8000 "
                   "with LICH fragment k mod 6, the last one carrying the end-of-stream bit and the all-zero block (loop invariant by induction "
-                  "over the samples); shaping block after block through one FIR object equals one continuous run over the concatenated "
+                  "over the samples); plan_audio / plan_eq_specPlan: every frame carries exactly its 320-sample window of the input, the partial last "
+                  "window zero padded, nothing stale from an earlier block — the loop's whole plan (numbers, LICH indices, audio blocks, final "
+                  "frame) equals the specification's plan for every input length; shaping block after block through one FIR object equals one continuous run over the concatenated "
                   "symbol stream (from C19). The per-frame encoders are compositions of the functions proved in C04/C09/C10/C11 (and round-trip "
                   "in C01); that m17-mod's bytes equal those of the independent specification encoder (Lean M17.Spec.Tx, also python) is NOT one "
                   "Lean theorem: it is checked byte-for-byte on every run at function level (send_lsf, make_lich_segment, make_data_frame, "
